@@ -94,6 +94,8 @@ where   TFn:                Unpin+Send+FnOnce() -> TFuture,
                         // Poll the receiver
                         match recv.poll_unpin(context) {
                             Poll::Ready(Ok(())) => {
+                                #[cfg(feature = "verif-hooks")]
+                                crate::verif::point_here();
                                 // Start the future
                                 let future = create_future();
 
@@ -122,6 +124,8 @@ where   TFn:                Unpin+Send+FnOnce() -> TFuture,
                 WaitingForFuture(mut future) => {
                     if let Poll::Ready(future_result) = future.poll_unpin(context) {
                         // Future has completed
+                        #[cfg(feature = "verif-hooks")]
+                        crate::verif::point_here();
                         result = Poll::Pending;
                         self.task_finished.take().map(|finished| finished.send(()));
 
@@ -136,6 +140,8 @@ where   TFn:                Unpin+Send+FnOnce() -> TFuture,
 
                 WaitingForScheduler(future_result) => {
                     // Poll until the scheduler has finished running the task entirely (can deadlock while draining if we don't)
+                    #[cfg(feature = "verif-hooks")]
+                    crate::verif::point_here();
                     if let Poll::Ready(_) = self.scheduler_future.poll_unpin(context) {
                         result = Poll::Ready(Ok(*future_result));
                         Completed
